@@ -22,7 +22,9 @@ MANIFEST = {
     "C04": dict(text="VAAWire.tla (layout tables -> Body, Digest) is model-checked: offsets 0,4,8,10,12,44,52,53, Body has a left inverse "
                      "and is pairwise injective on ~10^3 boundary values, header/sub-second independence. Every enumerated value (under "
                      "every header) and seeded random values run through the real SerializeBody / SigningMsg / Marshal and through the "
-                     "processor's handleMessage with two different guardians; TLC validates every recorded output. Offsets/widths/hash "
+                     "processor's handleMessage with two different guardians, plus two-step histories on one VAA value (digest taken, any one "
+                     "field changed in place or on a struct copy, digest / body / encoding taken again); TLC validates every recorded output. "
+                     "Offsets/widths/hash/body-start expression "
                      "extracted from Messages.sol parseVM and governance.ral parseAndVerifyVAA are compared with the tables TLC prints.",
                 ref="6/C04", note=NOTE, technique="TLA+ model checking (TLC) of the layout lemmas + model-based testing: TLC-enumerated cases and "
                                                   "TLC-validated traces of the real serializer; contract source extraction"),
@@ -37,12 +39,15 @@ MANIFEST = {
                      "signer subset and order, every single-step corruption; lemmas VerifyImpliesDistinct, CorruptionFails, oracle shape. Every "
                      "case with real secp256k1 keys, plus seeded lists of up to 256 addresses (index 255, repeats, malformed r/s/v, malleated "
                      "signatures), on the real VerifySignatures of /repo/node and of the node version the explorer links (+ the explorer's "
-                     "verifyVAA); TLC computes the allowed verdicts for every recorded evaluation from its abstract [idx, signer] description.",
+                     "gate driven through the exported Push path), incl. index orders across 127/128/255, non-adjacent repeated addresses and "
+                     "two-step histories (verify, change a body field of the same value, verify again); TLC computes the single expected verdict "
+                     "(Verify and no guardian counted twice) for every recorded evaluation from its abstract [idx, signer] description.",
                 ref="6/C06", note=NOTE, technique="TLA+ model checking (TLC) of the verification lemmas + model-based testing / trace validation of "
                                                   "the real VerifySignatures (node and explorer link)"),
     "C07": dict(text="Quorum.tla: Q(n) = floor(2n/3)+1, the three BFT lemmas and minimality for n = 1..255 (thorough: ..20000), agreement with the "
                      "Go fixed-point formula; the table n -> Q(n) printed by TLC is compared with CalculateQuorum as built from /repo/node and "
-                     "as linked by the explorer (n = 0..255 and seeded n up to 10^5, validated by TLC), and with the values of the quorum "
+                     "as linked by the explorer (n = 0..255 and seeded n up to 10^5, validated by TLC), with the explorer's Push gate for VAAs naming a "
+                     "non-current guardian set of another size (quorum-1 rejected, quorum accepted), and with the values of the quorum "
                      "expressions and acceptance comparisons extracted from Messages.sol and governance.ral.",
                 ref="6/C07", note=NOTE, technique="TLA+ model checking (TLC) of the BFT arithmetic + exhaustive comparison over the wire range with the "
                                                   "Go function (two link targets) and the extracted contract formulas"),
@@ -180,8 +185,14 @@ def signature(prop, ln, failed, spec):
         return "Marshal-SerializeBody/%s/%s" % (real, f)
     if ev == "ProcBody":
         return "handleMessage-body/%s/%s" % (real, f)
+    if ev == "Redigest":
+        return "SigningMsg-after-change/%s/%s/%s/%s" % (a.get("field"), a.get("mode"), real, f)
     if ev in ("Verify", "ExplorerVerify"):
         kind = a.get("kind") and a.get("vkind") or a.get("src", "case")
+        if "field" in a:
+            kind += ":after-change:%s:%s" % (a["field"], a.get("mode"))
+        if "sets" in a:
+            kind += ":sets=%s:named=%s:sigs=%d" % ("-".join(str(x) for x in a["sets"]), a.get("named"), len(a["sigs"]))
         allowed = spec.get("allowed")
         return "%s/%s/%s/allowed=%s/real=%s" % (ev, tgt, kind, "|".join(sorted(allowed)) if allowed else "?", s.get("res"))
     if ev == "Quorum":
@@ -209,8 +220,11 @@ def line_class(ln):
             ver, cnt = a["ver"], a["cnt"]
         floor = 6 + 66 * cnt + 53
         return ("Unmarshal", min(ver, 3), cnt, max(-70, min(L - floor, 5001)), s.get("ok"), "panic" in s)
+    if ev == "Redigest":
+        return (ev, a.get("field"), a.get("mode"), json.dumps(a.get("v1"), sort_keys=True))
     if ev in ("Verify", "ExplorerVerify"):
-        return (ev, ln.get("target"), tuple(a["addrs"]), tuple((x["idx"], x["signer"]) for x in a["sigs"]))
+        return (ev, ln.get("target"), tuple(a["addrs"]), tuple((x["idx"], x["signer"]) for x in a["sigs"]), a.get("field"), a.get("mode"),
+                tuple(a.get("sets", ())), a.get("named"))
     if ev == "Quorum":
         return (ev, ln.get("target"), a["n"])
     return (ev,)
@@ -264,6 +278,12 @@ def vector_from_line(ln, i):
     if ev == "ProcBody":
         v = dict(a["v"], subsec=0)
         return dict(id=i, kind="C04", v=v)
+    if ev == "Redigest":
+        return dict(id=i, kind="C04R", v=dict(a["v1"], subsec=0), field=a["field"], mode=a["mode"])
+    if ev in ("Verify", "ExplorerVerify") and "field" in a:      # two-step history: valid signatures, then a field changes
+        return dict(id=i, kind="C06R", addrs=a["addrs"], idx=[x["idx"] for x in a["sigs"]], field=a["field"], mode=a["mode"])
+    if ev == "ExplorerVerify" and "sets" in a:
+        return dict(id=i, kind="C07X", sets=a["sets"], named=a["named"], idx=[x["idx"] for x in a["sigs"]])
     if ev in ("Verify", "ExplorerVerify"):
         return dict(id=i, kind="C06", addrs=a["addrs"], sigs=a["sigs"])
     if ev == "Quorum":
@@ -328,64 +348,68 @@ def run(prop, tier, replay=None):
         byid = {(v["kind"], v["id"]): v for v in vectors}
     tpath = ff.write_tables(work, tables)
 
-    # 2. the real code: TLC's cases
-    def go_vectors(target, vs, tag):
-        if not vs:
-            return
-        ls, w = ff.run_vectors(work, target, vs, tpath, tag)
-        for ln in ls:
-            ln["target"] = target
-            if ln["a"].get("kind") == "C06":
-                ln["a"]["vkind"] = byid.get(("C06", ln["a"]["id"]), {}).get("vkind", "replay")
-        walls["vectors/" + target] = round(w, 1)
-        lines.extend(ls)
+    # 2./3. the real code: TLC's cases, and seeded cases from the wide concrete domain (independent `go test` runs, in parallel)
+    tasks = []       # (label, callable returning (lines, wall))
+
+    def add_vectors(target, vs, tag):
+        if vs:
+            sub = os.path.join(work, "run%d" % len(tasks))
+            os.makedirs(sub)
+            tasks.append(("vectors/" + target, target, lambda: ff.run_vectors(sub, target, vs, tpath, tag)))
+
+    def add_gen(target, gens, n, tag, env=None):
+        sub = os.path.join(work, "run%d" % len(tasks))
+        os.makedirs(sub)
+        tasks.append(("gen/%s/%s" % (target, "+".join(gens)), target, lambda: ff.run_generators(sub, target, gens, n, tpath, tag, env)))
+
+    def run_tasks():
+        from concurrent.futures import ThreadPoolExecutor
+        with ThreadPoolExecutor(max_workers=4) as ex:
+            futs = [ex.submit(t[2]) for t in tasks]
+            for (label, target, _), fu in zip(tasks, futs):
+                ls, w = fu.result()
+                for ln in ls:
+                    ln["target"] = target
+                    if ln["a"].get("kind") == "C06":
+                        ln["a"]["vkind"] = byid.get(("C06", ln["a"]["id"]), {}).get("vkind", "replay")
+                walls[label] = round(w, 1)
+                lines.extend(ls)
+        del tasks[:]
 
     if replay:
         for tgt in sorted({v["target"] for v in vectors}):
             vs = [v for v in vectors if v["target"] == tgt]
             if tgt == "vaa" and any(v["kind"] in ("C07", "C04") for v in vs):
                 tgt = "proc"
-            go_vectors(tgt, vs, "replay")
+            add_vectors(tgt, vs, "replay")
     elif prop == "C04":
-        go_vectors("proc", vectors, "c04")
+        add_vectors("proc", vectors, "c04")
+        add_gen("vaa", ["encode", "redigest"], pl["gen_n"], "c04")
+        add_gen("proc", ["procbody"], pl["gen_n"] // 2, "c04")
     elif prop == "C05":
-        go_vectors("vaa", vectors, "c05")
+        add_vectors("vaa", vectors, "c05")
+        for g, n in pl["gens"]:
+            add_gen("vaa", [g], n, "c05" + g)
     elif prop == "C06":
-        go_vectors("vaa", vectors, "c06")
-        go_vectors("explorer", vectors, "c06")
+        add_vectors("vaa", vectors, "c06")
+        add_vectors("explorer", vectors, "c06")
+        add_gen("vaa", ["verify"], pl["gen_n"], "c06")
+        add_gen("explorer", ["verify"], pl["gen_n"], "c06")
     elif prop == "C07":
-        go_vectors("proc", vectors, "c07")
-        go_vectors("explorer", vectors, "c07")
-
-    # 3. the real code: seeded cases from the wide concrete domain (+ fuzzing)
-    def go_gen(target, gens, n, tag, env=None):
-        ls, w = ff.run_generators(work, target, gens, n, tpath, tag, env)
-        for ln in ls:
-            ln["target"] = target
-        walls["gen/%s/%s" % (target, "+".join(gens))] = round(w, 1)
-        lines.extend(ls)
-
-    if not replay:
-        if prop == "C04":
-            go_gen("vaa", ["encode"], pl["gen_n"], "c04")
-            go_gen("proc", ["procbody"], pl["gen_n"] // 2, "c04")
-        elif prop == "C05":
-            for g, n in pl["gens"]:
-                go_gen("vaa", [g], n, "c05" + g)
-            if pl["fuzztime"]:
-                seeds = [B(v["bytes"]).hex() for v in vectors if v["kind"] in ("C05B", "C05E")][::7]
-                cdir, finfo = ff.fuzz(work, tpath, seeds, pl["fuzztime"], min(vlib.NCPU, 12))
-                print("fuzzing: %s" % finfo)
-                extra_cov["fuzz"] = finfo
-                go_gen("vaa", ["corpus"], 1, "c05corpus", {"VERIF_FUZZ_CORPUS": cdir})
-        elif prop == "C06":
-            go_gen("vaa", ["verify"], pl["gen_n"], "c06")
-            go_gen("explorer", ["verify"], pl["gen_n"], "c06")
-        elif prop == "C07":
-            go_gen("proc", ["quorum"], pl["gen_n"], "c07")
-            go_gen("explorer", ["quorum"], pl["gen_n"], "c07")
-    wanted = {"C04": ("Encode", "ProcBody"), "C05": ("Encode", "Decode", "DecodeShape"), "C06": ("Verify", "ExplorerVerify"),
-              "C07": ("Quorum",)}[prop]
+        add_vectors("proc", vectors, "c07")
+        add_vectors("explorer", vectors, "c07")
+        add_gen("proc", ["quorum"], pl["gen_n"], "c07")
+        add_gen("explorer", ["quorum", "explorerquorum"], pl["gen_n"], "c07")
+    run_tasks()
+    if prop == "C05" and not replay and pl["fuzztime"]:
+        seeds = [B(v["bytes"]).hex() for v in vectors if v["kind"] in ("C05B", "C05E")][::7]
+        cdir, finfo = ff.fuzz(work, tpath, seeds, pl["fuzztime"], min(vlib.NCPU, 12))
+        print("fuzzing: %s" % finfo)
+        extra_cov["fuzz"] = finfo
+        add_gen("vaa", ["corpus"], 1, "c05corpus", {"VERIF_FUZZ_CORPUS": cdir})
+        run_tasks()
+    wanted = {"C04": ("Encode", "ProcBody", "Redigest"), "C05": ("Encode", "Decode", "DecodeShape"), "C06": ("Verify", "ExplorerVerify"),
+              "C07": ("Quorum", "ExplorerVerify")}[prop]
     lines = [ln for ln in lines if ln["ev"] in wanted]     # e.g. the round-trip decodes of the encode generator speak to C05 only
     nreal = len(lines)
     print("evaluated the real code %d times (%s)" % (nreal, ", ".join("%s %.1fs" % kv for kv in sorted(walls.items()))))
@@ -437,7 +461,7 @@ def run(prop, tier, replay=None):
         for rj in rejs:
             ln = tlines[rj["n"] - 1]
             why = rj.get("why")
-            failed = why if isinstance(why, list) else ["verdict"] if prop == "C06" else ["q"] if prop == "C07" else [str(why)]
+            failed = why if isinstance(why, list) else ["verdict"] if ln["ev"] in ("Verify", "ExplorerVerify") else ["q"] if ln["ev"] == "Quorum" else [str(why)]
             spec = dict(rj.get("spec") or {})
             if ln["ev"] == "Decode" and spec.get("accept") and "bytes" in ln["a"]:
                 b = ln["a"]["bytes"]
@@ -530,8 +554,14 @@ def run(prop, tier, replay=None):
         cov["max_address_list"] = max([len(ln["a"]["addrs"]) for ln in lines if "addrs" in ln["a"]] or [0])
         cov["max_index"] = max([x["idx"] for ln in lines if "sigs" in ln["a"] for x in ln["a"]["sigs"]] or [0])
         cov["lists_with_repeats"] = sum(1 for ln in lines if "addrs" in ln["a"] and len(set(ln["a"]["addrs"])) < len(ln["a"]["addrs"]))
-        cov["either_verdict_allowed"] = sum(1 for v in vectors if v.get("kind") == "C06" and len(v.get("allowed", [])) == 2)
+        # cases where the three positional conditions hold but one guardian signs at two of its positions: must be rejected
+        cov["double_count_cases_expected_rejected"] = sum(1 for v in vectors if v.get("kind") == "C06" and v.get("verify") and v.get("allowed") == [False])
+        cov["two_step_histories"] = sum(1 for ln in lines if "field" in ln["a"])
+        cov["order_cases_across_index_128"] = sum(1 for ln in lines if ln["a"].get("src") == "gen-verify-order128")
+    if prop == "C04":
+        cov["two_step_histories"] = sum(1 for ln in lines if ln["ev"] == "Redigest")
     if prop == "C07":
+        cov["explorer_pushes_with_two_sets"] = sum(1 for ln in lines if "sets" in ln["a"])
         cov["exhaustive"] = not replay          # the wire range n = 0..255 is enumerated completely for all programs
     cov.update(extra_cov)
     vlib.write_evidence(prop, tier, "model_checking", cov, ASSUME, time.time() - t0, getattr(verdict, "n_unknown", 0))
